@@ -3,11 +3,21 @@
    The textbook values are stated sort-free (no tie order to choose):
      holm_i = max over {j | p_j <= p_i} of min(1, #{k | p_k >= p_j} p_j)
      bh_i   = min over {j | p_j >= p_i} of min(1, n p_j / #{k | p_k <= p_j})
-   which are the step-down / step-up formulas of the property text evaluated along ANY sorting order.
-   That the model of the code (running max/min along the argsort order supplied by NumPy) returns exactly these
-   values is checked by computation on every correspondence case (Corr/C11.v); it is not yet a theorem: C11_partial. *)
-From PV Require Import Lib.Base Model.Adjust Proofs.AdjustProofs.
+   which are the step-down / step-up formulas of the property text evaluated along ANY sorting order. *)
+From PV Require Import Lib.Base Model.Adjust Proofs.AdjustProofs Proofs.RunningProofs.
 Open Scope Q_scope.
+
+(* the model of the code -- min-rank / max-rank multipliers, running maximum along the argsort order (Holm),
+   running minimum along its reverse (BH) -- returns exactly the textbook values, for EVERY sorting permutation
+   [ord] of the p-values: ties may be ranked in any order without changing the result *)
+Theorem C11_adjust_p_eq_textbook_for_every_sorting_order : forall p ord,
+  is_sorting_perm p ord = true -> (forall y, In y p -> 0 <= y) ->
+  forall j, (j < length p)%nat ->
+  (exists l, adjust_p p ord Holm = Ok l /\ nth j l 0 == holm_val p (nth j p 0)) /\
+  (exists l, adjust_p p ord BH = Ok l /\ nth j l 0 == bh_val p (nth j p 0)) /\
+  (exists l, adjust_p p ord Bonferroni = Ok l /\ nth j l 0 == bonf_val p (nth j p 0)).
+Proof. exact adjust_p_eq_textbook. Qed.
+Print Assumptions C11_adjust_p_eq_textbook_for_every_sorting_order.
 
 Theorem C11_spec_is_entrywise : forall p,
   holm_spec p = map (holm_val p) p /\ bh_spec p = map (bh_val p) p /\
